@@ -22,7 +22,7 @@ RULE = ("trees of lower-case .cmake files at depth 0..4 whose contents are gener
         "following command's entry. Non-trivial: depth>=2 or separator != '.' or lone-file input or '@module' directly "
         "followed by a command; distinct by SHA-1 of the case")
 ASSUMPTIONS = ["file names end in lower-case .cmake", "how inner path components are joined is not constrained, only their order"]
-BUDGET = {"quick": {"shards": 4, "examples": 120}, "thorough": {"shards": 16, "examples": 1500}}
+BUDGET = {"quick": {"shards": 8, "examples": 100}, "thorough": {"shards": 16, "examples": 1500}}
 
 SEPS = [".", ".", "::", "/", "-", "->", "_"]
 HEADER_POOL = list("#*=-_~!&@^+:'\"`$%<>")
